@@ -10,6 +10,7 @@ import (
 	"os"
 	"os/exec"
 	"path/filepath"
+	"regexp"
 	"sort"
 	"strings"
 	"sync"
@@ -26,6 +27,7 @@ type SolveResult struct {
 	QueryLen int
 	File     string
 	Single   bool // thorough tier: exactly one back end answered unsat
+	Sliced   bool // discharged from the goal-connected part of the path condition alone
 }
 
 type Solver struct {
@@ -128,9 +130,134 @@ func newSMT(pre *Prelude, tier string, seed int) (*SMT, error) {
 func (s *SMT) cleanup() { os.RemoveAll(s.dir) }
 
 // buildQuery assembles the SMT-LIB text for "pc and not goal" (or just pc for vacuity checks).
+// slicePC keeps the path-condition conjuncts that are connected to the goal through the
+// symbols the engine declared (variables, havocked values, uninterpreted results), following
+// the per-symbol facts as well.  Dropping assumptions is sound for a proof (unsat of the
+// slice implies unsat of the whole); a slice that is not unsat decides nothing and the full
+// query is asked.  Many obligations of different paths have the same slice, so the solver is
+// asked once for all of them.
+func (m *Machine) slicePC(o *Obligation) ([]Term, bool) {
+	m.qmu.Lock()
+	if m.symCache == nil {
+		m.symCache = map[string][]string{}
+	}
+	m.qmu.Unlock()
+	symsOf := func(text string) []string {
+		m.qmu.Lock()
+		v, ok := m.symCache[text]
+		m.qmu.Unlock()
+		if ok {
+			return v
+		}
+		var out []string
+		for sym := range smtSymbols(text) {
+			if _, ok := m.syms.decls[sym]; ok {
+				out = append(out, sym)
+			}
+		}
+		m.qmu.Lock()
+		m.symCache[text] = out
+		m.qmu.Unlock()
+		return out
+	}
+	rel := map[string]bool{}
+	var work []string
+	add := func(sym string) {
+		if !rel[sym] {
+			rel[sym] = true
+			work = append(work, sym)
+		}
+	}
+	for _, sym := range symsOf(o.Goal.S) {
+		add(sym)
+	}
+	include := make([]bool, len(o.PC))
+	pcSyms := make([][]string, len(o.PC))
+	for i, p := range o.PC {
+		pcSyms[i] = symsOf(p.S)
+	}
+	for {
+		for len(work) > 0 {
+			sym := work[len(work)-1]
+			work = work[:len(work)-1]
+			for _, f := range m.facts[sym] {
+				for _, s2 := range symsOf(f.S) {
+					add(s2)
+				}
+			}
+		}
+		changed := false
+		for i := range o.PC {
+			if include[i] {
+				continue
+			}
+			hit := len(pcSyms[i]) == 0 // closed conjuncts (rare) are kept
+			for _, sym := range pcSyms[i] {
+				if rel[sym] {
+					hit = true
+					break
+				}
+			}
+			if hit {
+				include[i] = true
+				changed = true
+				for _, sym := range pcSyms[i] {
+					add(sym)
+				}
+			}
+		}
+		// one hop only: conjuncts that mention a symbol of the goal (or of the facts about those
+		// symbols).  A transitive closure keeps almost everything as soon as one variable is
+		// shared by the whole path condition.
+		_ = changed
+		break
+	}
+	var out []Term
+	for i, p := range o.PC {
+		if include[i] {
+			out = append(out, p)
+		}
+	}
+	return out, len(out) < len(o.PC)
+}
+
 func (m *Machine) buildQuery(s *SMT, o *Obligation) string {
+	return m.buildQueryPC(s, o, o.PC, false)
+}
+
+var freshSymRe = regexp.MustCompile(`[^\s()]+![0-9]+`)
+
+// canonNames renames the engine's numbered symbols (x!17) in order of first occurrence, so that
+// the same proof obligation reached along different paths gives the same query text (and is
+// solved once).  Used for sliced queries only: their models are never read.
+func canonNames(decls []string, rest string) string {
+	ren := map[string]string{}
+	cnt := 0
+	rest = freshSymRe.ReplaceAllStringFunc(rest, func(sym string) string {
+		if r, ok := ren[sym]; ok {
+			return r
+		}
+		cnt++
+		r := fmt.Sprintf("%s!c%d", sym[:strings.LastIndex(sym, "!")], cnt)
+		ren[sym] = r
+		return r
+	})
+	out := make([]string, 0, len(decls))
+	for _, d := range decls {
+		out = append(out, freshSymRe.ReplaceAllStringFunc(d, func(sym string) string {
+			if r, ok := ren[sym]; ok {
+				return r
+			}
+			return sym
+		}))
+	}
+	sort.Strings(out)
+	return strings.Join(out, "\n") + "\n" + rest
+}
+
+func (m *Machine) buildQueryPC(s *SMT, o *Obligation, pc []Term, canon bool) string {
 	var body strings.Builder
-	for _, p := range o.PC {
+	for _, p := range pc {
 		fmt.Fprintf(&body, "(assert %s)\n", p.S)
 	}
 	if !o.ExpectSat {
@@ -157,7 +284,14 @@ func (m *Machine) buildQuery(s *SMT, o *Obligation) string {
 		}
 	}
 	// unfold recursive spec functions on the applications present (two rounds)
-	if len(s.recFns) > 0 {
+	hasRec := false
+	for name := range s.recFns {
+		if strings.Contains(all, name) {
+			hasRec = true
+			break
+		}
+	}
+	if hasRec {
 		done := map[string]bool{}
 		for round := 0; round < 2; round++ {
 			es, err := readSExps(all)
@@ -205,6 +339,12 @@ func (m *Machine) buildQuery(s *SMT, o *Obligation) string {
 				break
 			}
 		}
+	}
+	if canon {
+		sort.Strings(facts)
+		q.WriteString(canonNames(m.syms.declsFor(all), strings.Join(facts, "")+text))
+		q.WriteString("(check-sat)\n")
+		return q.String()
 	}
 	for _, d := range m.syms.declsFor(all) {
 		q.WriteString(d)
@@ -407,6 +547,22 @@ func parseGetValue(out string) map[string]string {
 
 // solveAll discharges obligations in parallel.
 func (m *Machine) solveAll(s *SMT, obs []*Obligation, workers int) {
+	m.smtRef = s
+	sliced := map[*Obligation]string{}
+	if m.queryOf == nil {
+		m.queryOf = map[*Obligation]string{}
+	}
+	t0 := time.Now()
+	// queries are built and solved by the workers; building only reads the machine's tables
+	// (symbol declarations, facts, prelude) apart from the caches guarded by qmu.  The full
+	// query of an obligation that has a slice is built only if the slice does not decide it.
+	var todo []*Obligation
+	for _, o := range obs {
+		if o.Res == nil {
+			todo = append(todo, o)
+		}
+	}
+	nSliced := 0
 	var wg sync.WaitGroup
 	ch := make(chan *Obligation)
 	for i := 0; i < workers; i++ {
@@ -414,26 +570,49 @@ func (m *Machine) solveAll(s *SMT, obs []*Obligation, workers int) {
 		go func() {
 			defer wg.Done()
 			for o := range ch {
-				q := m.queryOf[o]
-				o.Res = s.solve(q, o.Name())
+				if !o.ExpectSat && !o.Canary && os.Getenv("GOVC_NOSLICE") == "" {
+					if pc, smaller := m.slicePC(o); smaller {
+						qs := m.buildQueryPC(s, o, pc, true)
+						m.qmu.Lock()
+						nSliced++
+						m.qmu.Unlock()
+						if r := s.solve(qs, o.Name()); r.Status == "unsat" {
+							r.Sliced = true
+							o.Res = r
+							continue
+						}
+					}
+				}
+				o.Res = s.solve(m.fullQuery(s, o), o.Name())
 			}
 		}()
-	}
-	// queries are built sequentially (the symbol table is not concurrent), solved in parallel
-	if m.queryOf == nil {
-		m.queryOf = map[*Obligation]string{}
-	}
-	var todo []*Obligation
-	for _, o := range obs {
-		if o.Res != nil {
-			continue
-		}
-		m.queryOf[o] = m.buildQuery(s, o)
-		todo = append(todo, o)
 	}
 	for _, o := range todo {
 		ch <- o
 	}
 	close(ch)
 	wg.Wait()
+	_ = sliced
+	if os.Getenv("GOVC_TIMING") != "" {
+		fmt.Fprintf(os.Stderr, "TIMING solveAll: %d obligations, %d sliced, build %.1fs, total %.1fs\n", len(todo), nSliced, 0.0, time.Since(t0).Seconds())
+	}
+}
+
+func (m *Machine) fullQueryOK(s *SMT, o *Obligation) (string, bool) {
+	return m.fullQuery(s, o), true
+}
+
+// fullQuery returns (building it on first use) the query with the complete path condition.
+func (m *Machine) fullQuery(s *SMT, o *Obligation) string {
+	m.qmu.Lock()
+	q, ok := m.queryOf[o]
+	m.qmu.Unlock()
+	if ok {
+		return q
+	}
+	q = m.buildQuery(s, o)
+	m.qmu.Lock()
+	m.queryOf[o] = q
+	m.qmu.Unlock()
+	return q
 }
